@@ -13,9 +13,12 @@ import collections
 import hashlib
 import json
 import os
+import pickle
 import random
+import select
 import shutil
 import signal
+import time
 import struct
 import tempfile
 import traceback
@@ -288,6 +291,20 @@ def executeHistory(
                 outcome = "violation:" + v.key
                 res.violation = {"key": v.key, "message": v.message, "step": index,
                                  "details": jsonRoundTrip(v.details)}
+            except (HarnessError, RunTimeout):
+                raise
+            except Exception as exc:  # pylint: disable=broad-except
+                # An exception that left WallGo code at a place where the step
+                # interpreter expects none: the API call did not deliver what the
+                # property promises.  One that originates in harness code is ours.
+                if not raisedInsideSystemUnderTest(exc):
+                    raise
+                key = f"unexpected-exception/{step.get('op', '?')}:{type(exc).__name__}"
+                outcome = "violation:" + key
+                res.violation = {
+                    "key": key, "step": index, "details": None,
+                    "message": f"{step.get('op')} made a WallGo call that raised "
+                               f"{type(exc).__name__}: {str(exc)[:300]}"}
             d = digest(obs)
             res.events.append([index, step.get("op", "?"), outcome, d[:16]])
             h.update(f"{index}:{step.get('op')}:{outcome}:{d}".encode())
@@ -344,21 +361,24 @@ def minimise(
     key: str,
     budget: int = 300,
     log: Callable[[str], None] = lambda s: None,
+    runner: Callable | None = None,
 ) -> tuple[dict, list, bool, int]:
     """Shrink (cfg, steps) while the same violation key persists."""
     used = 0
+    run = runner if runner is not None else (
+        lambda c, s: executeHistory(machineCls, c, s, seedI))
 
     def fails(c: dict, s: list) -> bool:
         nonlocal used
         used += 1
         try:
-            r = executeHistory(machineCls, c, s, seedI)
+            r = run(c, s)
         except Exception:  # harness trouble on a candidate: not the same failure
             return False
         return r.violation is not None and r.violation["key"] == key
 
     # cut everything after the failing step
-    r0 = executeHistory(machineCls, cfg, steps, seedI)
+    r0 = run(cfg, steps)
     used += 1
     if r0.violation is None or r0.violation["key"] != key:
         return cfg, steps, False, used
@@ -438,6 +458,82 @@ class runTimeLimit:
     def __exit__(self, *exc: Any) -> None:
         signal.setitimer(signal.ITIMER_REAL, 0)
         signal.signal(signal.SIGALRM, self.old)
+
+
+def runIsolated(fn: Callable, args: tuple, timeout: float) -> Any:
+    """One simulated run = one OS process.  fn(*args) is executed in a forked
+    child of the (pristine) calling process, so no state of the system under
+    test -- module globals, class-level lists, caches -- can leak from one run
+    into the next, and a hung run can be killed.  The result comes back pickled
+    through a pipe."""
+    rfd, wfd = os.pipe()
+    pid = os.fork()
+    if pid == 0:  # child
+        code = 0
+        try:
+            os.close(rfd)
+            try:
+                payload: tuple = ("ok", fn(*args))
+            except BaseException as exc:  # pylint: disable=broad-except
+                payload = ("exc", type(exc).__name__, formatException(exc))
+            with os.fdopen(wfd, "wb") as fh:
+                fh.write(pickle.dumps(payload, protocol=pickle.HIGHEST_PROTOCOL))
+        except BaseException:  # pylint: disable=broad-except
+            code = 1
+        finally:
+            os._exit(code)
+    os.close(wfd)
+    chunks = []
+    deadline = time.monotonic() + timeout
+    timedOut = False
+    try:
+        while True:
+            remaining = deadline - time.monotonic()
+            if remaining <= 0:
+                timedOut = True
+                break
+            ready, _, _ = select.select([rfd], [], [], min(remaining, 5.0))
+            if not ready:
+                continue
+            data = os.read(rfd, 1 << 20)
+            if not data:
+                break
+            chunks.append(data)
+    finally:
+        os.close(rfd)
+        if timedOut:
+            try:
+                os.kill(pid, signal.SIGKILL)
+            except ProcessLookupError:
+                pass
+        os.waitpid(pid, 0)
+    if timedOut:
+        raise RunTimeout(f"run exceeded {timeout}s and was killed")
+    if not chunks:
+        raise HarnessError("isolated run died without returning a result")
+    payload = pickle.loads(b"".join(chunks))
+    if payload[0] == "ok":
+        return payload[1]
+    if payload[1] == "RunTimeout":
+        raise RunTimeout(payload[2])
+    raise HarnessError(f"isolated run raised {payload[1]}:\n{payload[2]}")
+
+
+def raisedInsideSystemUnderTest(exc: BaseException) -> bool:
+    """True if, below the last harness frame of the traceback, there is a frame
+    of the system under test (the repository's src tree)."""
+    repoSrc = os.path.abspath(os.environ.get("WGSIM_REPO_SRC", "/repo/src")) + os.sep
+    harness = os.path.join(VERIF_ROOT, "wgsim") + os.sep
+    seenSut = False
+    tb = exc.__traceback__
+    while tb is not None:
+        filename = os.path.abspath(tb.tb_frame.f_code.co_filename)
+        if filename.startswith(harness):
+            seenSut = False
+        elif filename.startswith(repoSrc):
+            seenSut = True
+        tb = tb.tb_next
+    return seenSut
 
 
 def formatException(exc: BaseException) -> str:
